@@ -22,7 +22,8 @@ from eliot.testing import (LoggedAction, LoggedMessage, assertHasAction, assertH
                            swap_logger)
 from eliot.parse import Parser
 
-FIELD_KEYS = ("x", "c", "z")
+FIELD_KEYS = ("x", "c", "z", "n")
+NONE = -99          # Helpers.tla's NoneV: Python's None as a field value
 
 
 class _TC(unittest.TestCase):
@@ -41,7 +42,7 @@ def abstract(messages):
             k = "start" if st == "started" else "end"
         ty = m.get("action_type") if k != "msg" else m.get("message_type", "")
         S.append({"u": u, "lv": list(m["task_level"]), "k": k, "ty": ty if isinstance(ty, str) else "", "st": st,
-                  "f": {key: m[key] for key in FIELD_KEYS if key in m}})
+                  "f": {key: (NONE if m[key] is None else m[key]) for key in FIELD_KEYS if key in m}})
         ident[(m["task_uuid"], tuple(m["task_level"]))] = i + 1
     return S, ident
 
@@ -50,7 +51,7 @@ def concrete(S):
     """Abstract list [[u, lv, k, ty, st, x, c], ...] -> real message dicts."""
     out = []
     for i, (u, lv, k, ty, st, x, c) in enumerate(S):
-        d = {"task_uuid": "uuid-%d" % u, "task_level": list(lv), "timestamp": 1000.0 + i, "x": x, "c": c}
+        d = {"task_uuid": "uuid-%d" % u, "task_level": list(lv), "timestamp": 1000.0 + i, "x": x, "c": c, "n": None}
         if k == "msg":
             d["message_type"] = ty
         else:
@@ -220,7 +221,7 @@ def _d(x):
     """An expected-fields dictionary ([] stands for the empty one); None = 'do not check'."""
     if x is None:
         return None
-    return dict(x) if x else {}
+    return {k: (None if v == NONE else v) for k, v in dict(x).items()} if x else {}
 
 
 # ---------------------------------------------------------------------------------------
@@ -243,6 +244,7 @@ def run_program(ops):
         f = {"x": nx()}
         if op.get("c", True):
             f["c"] = 7
+            f["n"] = None
         return f
 
     def step(op):
@@ -341,18 +343,25 @@ def choose_queries(S, rng):
             other = dict(S[starts[1]]["f"]) if len(starts) > 1 else {"x": -1}
             cands = [[ty, ok, {}, {}], [ty, ok, None, None], [ty, not ok, sf, ef], [ty, ok, sf, ef], [ty, ok, {"x": other.get("x", -1)}, {}],
                      [ty, ok, {}, {"x": -5}], [ty, ok, dict(sf, z=0), {}], [ty, ok, {}, dict(ef, z=0)], [ty, ok, {"c": 8}, {}]]
+            cands += [[ty, ok, {"z": NONE}, {}], [ty, ok, {}, {"z": NONE}]]          # absent key, expected None
+            if "n" in sf:
+                cands.append([ty, ok, {"n": NONE}, {}])
+            if "n" in ef:
+                cands.append([ty, ok, {}, {"n": NONE}])
             if "x" in sf:
                 cands.append([ty, ok, {"x": sf["x"]}, {}])
             if "x" in ef:
                 cands.append([ty, ok, {}, {"x": ef["x"]}])
-            aa += [cands[0], cands[2], cands[3]] + rng.sample(cands[4:], min(3, len(cands) - 4)) + [cands[1]]
+            aa += [cands[0], cands[2], cands[3]] + rng.sample(cands[4:], min(5, len(cands) - 4)) + [cands[1]]
         ms = [i for i, m in enumerate(S) if m["k"] == "msg" and m["ty"] == ty]
         if not ms:
             am.append([ty, []])
         else:
             f = dict(S[ms[0]]["f"])
             other = dict(S[ms[1]]["f"]) if len(ms) > 1 else {"x": -1}
-            am += [[ty, {}], [ty, None], [ty, f], [ty, {"x": other.get("x", -1)}], [ty, dict(f, z=0)]]
+            am += [[ty, {}], [ty, None], [ty, f], [ty, {"x": other.get("x", -1)}], [ty, dict(f, z=0)], [ty, {"z": NONE}]]
+            if "n" in f:
+                am.append([ty, {"n": NONE}])
     return types, aa, am
 
 
